@@ -277,6 +277,123 @@ def merge_skeleton(facts, rep):
     rep.require(n >= 5, 'C20: merge-skeleton obligations found: %d' % n)
 
 
+GROWS = ('Push', 'PushSize', 'Grow', 'Reserve', 'Push5_8')
+PTRS = ('PushSize', 'PushSizeUnsafe', 'Begin', 'End', 'Top', 'Grow')
+
+
+def clause_stable_pointer(facts, rep, files=('sonic/dom/handler.h', 'sonic/dom/serialize.h', 'sonic/dom/schema_handler.h', 'sonic/writebuffer.h')):
+    """no pointer into a growable buffer outlives a growth: the node stack of the lazy handler (and every other
+    internal::Stack / WriteBuffer) reallocates when it is pushed to, so an address obtained from PushSize / Begin /
+    End / Top (a) is never kept in a member field - later events push again - and (b) when kept in a local or a
+    reference, is not used after a later call that can grow the same buffer (must-analysis: the 'fresh' fact of the
+    variable is killed by Push / PushSize / Grow / Reserve on that buffer)."""
+    n = 0
+    seen = set()
+    for f in facts.functions:
+        if not any(f.file.endswith(x) for x in files):
+            continue
+        key = (f.qn.split('<')[0], f.loc)
+        if key in seen:
+            continue
+
+        def buf_of(e):
+            """text of the stack object a call is made on, if its type is a Stack / WriteBuffer"""
+            o = e.get('obj')
+            if o is None:
+                return None
+            o_ = strip(o)
+            while o_ is not None and o_.get('k') == 'cast':
+                o_ = strip(o_['e'])
+            t = (o_.get('t') or '') if o_ is not None else ''
+            if 'Stack' in t or 'WriteBuffer' in t:
+                return show(o_)
+            return None
+
+        def ptr_source(e):
+            """buffer whose storage the value of expression e points into (through casts, placement new, unary *)"""
+            for x in walk(e):
+                if x.get('k') == 'call' and x.get('cname') in PTRS and buf_of(x) is not None and '*' in (x.get('t') or ''):
+                    return buf_of(x)
+            return None
+        derived = {}      # local id -> buffer text
+        stores = []
+        uses = []
+        for bid, i, s_ in f.stmts():
+            st = strip(s_)
+            if not isinstance(st, dict):
+                continue
+            if st.get('k') == 'decl':
+                for vd in st['vars']:
+                    if vd.get('init') is not None and ('*' in (vd.get('t') or '') or '&' in (vd.get('t') or '')):
+                        b = ptr_source(vd['init'])
+                        if b is not None:
+                            derived[vd['id']] = b
+            for e in walk(st):
+                if e.get('k') == 'bin' and e['op'] == '=':
+                    b = ptr_source(e['r'])
+                    l = strip(e['l'])
+                    if b is not None and l is not None:
+                        if l.get('k') == 'member' and is_this_member_(l):
+                            stores.append((e, b))
+                        elif l.get('k') == 'ref' and l.get('dk') == 'local' and '*' in (l.get('t') or ''):
+                            derived[l['id']] = b
+        if not derived and not stores and not any(buf_of(e) for _, _, _, e in f.walk() if e.get('k') == 'call'):
+            continue
+        seen.add(key)
+        rep.fn(f)
+        for e, b in stores:
+            n += 1
+            rep.check(False, 'E8.stable-pointer', f.qn, show(e)[:90], locline(e['loc']),
+                      'an address inside the growable buffer %s is kept in a member field; the next push may reallocate the buffer' % b, facts.config)
+        if derived:
+            def gen_stmt(s):
+                out = []
+                st = strip(s)
+                if isinstance(st, dict) and st.get('k') == 'decl':
+                    for vd in st['vars']:
+                        if vd['id'] in derived and vd.get('init') is not None and ptr_source(vd['init']) is not None:
+                            out.append(('fresh', vd['id']))
+                for e in walk(s):
+                    if e.get('k') == 'bin' and e['op'] == '=' and strip(e['l']) is not None and strip(e['l']).get('k') == 'ref' \
+                            and strip(e['l']).get('id') in derived and ptr_source(e['r']) is not None:
+                        out.append(('fresh', strip(e['l'])['id']))
+                return out
+
+            def kill_stmt(s):
+                out = []
+                for e in walk(s):
+                    if e.get('k') == 'call' and e.get('cname') in GROWS and buf_of(e) is not None:
+                        for vid, b in derived.items():
+                            if b == buf_of(e):
+                                out.append(('fresh', vid))
+                # a statement that both grows and re-derives (x = new (stk.PushSize(1)) T) ends with the pointer fresh: gen runs after kill
+                return out
+            M = Must(f, gen_stmt=gen_stmt, kill_stmt=kill_stmt)
+            for bid, i, s_, e in f.walk():
+                if e.get('k') == 'ref' and e.get('id') in derived:
+                    st = M.at(bid, i)
+                    if st is None:
+                        continue
+                    # the defining occurrence itself is not a use
+                    top = strip(s_)
+                    if isinstance(top, dict) and top.get('k') == 'decl' and any(vd['id'] == e['id'] for vd in top['vars']):
+                        continue
+                    if isinstance(top, dict) and top.get('k') == 'bin' and top['op'] == '=' and strip(top['l']) is e:
+                        continue
+                    n += 1
+                    rep.check(('fresh', e['id']) in st, 'E8.stable-pointer', f.qn, 'use of %s in %s' % (e.get('name'), show(s_)[:60]), locline(e['loc']),
+                              'the pointer into %s may have been invalidated by a push since it was taken' % derived[e['id']], facts.config)
+        if not stores and not derived:
+            n += 1
+            rep.check(True, 'E8.stable-pointer', f.qn, 'no address of the growable buffer is kept', f.loc, '', facts.config)
+    rep.require(n >= 6, 'stable-pointer: %d sites in %s (>= 6 expected)' % (n, files))
+
+
+def is_this_member_(l):
+    b = strip(l.get('base'))
+    return b is not None and b.get('k') == 'this'
+
+
 def run(rep, tier):
     configs = [('K1', ('::avx2::',))] if tier == 'quick' else [('K1', ('::avx2::',)), ('K3', ('::sse::',))]
     for cfg, ns in configs:
@@ -300,9 +417,11 @@ def run(rep, tier):
         from . import c10
         c10.clause_escape_flag(facts, rep, ns)
         c10.clause_escape_carry(facts, rep, ns)
+        c10.clause_container_carry(facts, rep, ns)
         c10.clause_escaped_bits(facts, rep, tier)
         # source keys are matched against the target through the lookup map (CreateMap / FindMember): its comparator must be
         # the unsigned lexicographic order on every path, or a key that is present is not found and gets appended (shared with C14)
+        clause_stable_pointer(facts, rep)
         from . import c14
         c14.clause_c(facts, rep)
         c14.clause_e(facts, rep, ns, min_returns=(6 if cfg == 'K1' else 1))
